@@ -3050,7 +3050,8 @@ bool LowerGamma::is_canonical(const RCP<const Basic> &s,
     if (is_a<Integer>(*s)
         and down_cast<const Integer &>(*s).as_integer_class() > 1)
         return false;
-    if (is_a<Integer>(*mul(i2, s)))
+    // half-integers are evaluated; integers <= 0 stay unevaluated
+    if (is_a<Integer>(*mul(i2, s)) and not is_a<Integer>(*s))
         return false;
 #ifdef HAVE_SYMENGINE_MPFR
 #if MPFR_VERSION_MAJOR > 3
@@ -3133,7 +3134,8 @@ bool UpperGamma::is_canonical(const RCP<const Basic> &s,
     if (is_a<Integer>(*s)
         and down_cast<const Integer &>(*s).as_integer_class() > 1)
         return false;
-    if (is_a<Integer>(*mul(i2, s)))
+    // half-integers are evaluated; integers <= 0 stay unevaluated
+    if (is_a<Integer>(*mul(i2, s)) and not is_a<Integer>(*s))
         return false;
 #ifdef HAVE_SYMENGINE_MPFR
 #if MPFR_VERSION_MAJOR > 3
@@ -3164,7 +3166,7 @@ RCP<const Basic> uppergamma(const RCP<const Basic> &s,
                        mul(pow(x, s_int), exp(mul(minus_one, x))));
         } else {
             // TODO: implement unpolarfy to handle this case
-            return make_rcp<const LowerGamma>(s, x);
+            return make_rcp<const UpperGamma>(s, x);
         }
     } else if (is_a<Integer>(*(mul(i2, s)))) {
         RCP<const Number> s_num = rcp_static_cast<const Number>(s);
